@@ -467,6 +467,7 @@ static void run_config(int lines, int rows, int cols, int hl, int hll, int depth
 	windows = 1;
 	nops_used = nops;
 	nx_bound = depth;
+	snprintf(nx_cfg_args, sizeof(nx_cfg_args), "cfg=%d,%d,%d,%d,%d", lines, rows, cols, hl, hll);
 	nx_run(3, argv);
 	nv_stat("configurations", 1);
 	nx_report();
